@@ -669,7 +669,24 @@ fn run_inner(cfg: &Config, worker: usize, program: &[u8], w: &World, plan: &Plan
         3 => push_env("RUST_BACKTRACE", b"full"),
         _ => {}
     }
-    if w.malloc_tun {
+    if w.malloc_mode != 0 {
+        let mut t: Vec<&str> = vec![];
+        if w.malloc_tun {
+            t.push("glibc.malloc.mmap_threshold=4096");
+            t.push("glibc.malloc.top_pad=1");
+        }
+        if w.malloc_mode & 1 != 0 {
+            t.push("glibc.malloc.tcache_count=0");
+        }
+        if w.malloc_mode & 2 != 0 {
+            t.push("glibc.malloc.perturb=165");
+        }
+        push_env("GLIBC_TUNABLES", t.join(":").as_bytes());
+        if w.malloc_tun {
+            push_env("MALLOC_MMAP_THRESHOLD_", b"4096");
+            push_env("MALLOC_ARENA_MAX", b"1");
+        }
+    } else if w.malloc_tun {
         push_env("GLIBC_TUNABLES", b"glibc.malloc.mmap_threshold=4096:glibc.malloc.top_pad=1");
         push_env("MALLOC_MMAP_THRESHOLD_", b"4096");
         push_env("MALLOC_ARENA_MAX", b"1");
